@@ -20,7 +20,7 @@ import extract_vocab
 import gen_c20_lean
 import wire
 
-EXTRA_TARGETS = ('Generated',)
+EXTRA_TARGETS = ('Generated.Tables', 'Generated.Vocab', 'Generated.Options')
 
 RULE = ('case = one (position, name) pair [every $-name of the MongoDB 5.0 vocabulary, of the '
         'code\'s own tables, near-miss and seeded random names, at each of 16 syntactic positions; '
